@@ -51,9 +51,9 @@ def assigned_names(stmts, env=None):
 
 def invariants_for(ex, stmt):
     q, k = loop_owner(ex, stmt)
-    c = ex.S.contracts.get(q)
-    if c is None and ex.recv_cls:
-        c = ex.S.contracts.get(ex.recv_cls + "::" + str(q))
+    c = ex.S.contracts.get(ex.recv_cls + "::" + str(q)) if ex.recv_cls else None      # receiver-class run: its own invariants first
+    if c is None:
+        c = ex.S.contracts.get(q)
     invs = []
     if c is not None:
         invs = c.loop_invariants.get(k, [])
